@@ -159,6 +159,10 @@ def _msg(rng, tag):
     return {"role": role, "content": tag, "extra": {"n": 1}}
 
 
+def _redact(m):
+    return dict(m, content="#" * len(m["content"])) if isinstance(m, dict) and isinstance(m.get("content"), str) else m
+
+
 def _collision(rng):
     """an accepted id list whose pieces glue together (with ANY one-character separator) into a rejected id."""
     for _ in range(20):
@@ -211,8 +215,9 @@ def g_e2e_case(rng, maxlen=12):
 
     if cfg["has_store"] and rng.random() < 0.5:         # threads that exist before this server is started
         cfg["store0"] = g_store(0.6)
-        if rng.random() < 0.06:
-            cfg["store0"].append([keys[0] if all(k != keys[0] for k, _ in cfg["store0"]) else "other2",
+        if rng.random() < 0.1:   # a long conversation
+            cfg["store0"] = [kv for kv in cfg["store0"] if kv[0] != keys[0]]
+            cfg["store0"].append([keys[0],
                                   [{"role": "user", "content": "h%d" % i} for i in range(rng.choice([120, 600, 1500]))]])
     approx = {}                                         # what the generator believes a thread holds (used for re-sent histories only)
     for k, v in cfg.get("store0") or []:
@@ -221,7 +226,7 @@ def g_e2e_case(rng, maxlen=12):
     def g_op():
         kinds = ["proc"] * (6 if n_procs > 1 else 0) + ["restart", "evict"]
         if ext:
-            kinds += ["set"] * 4 + ["del"] * 3 + ["append"] * 4 + ["take"] * 2 + ["swap"]
+            kinds += ["set"] * 4 + ["del"] * 3 + ["append"] * 4 + ["take"] * 2 + ["swap"] + ["redact"] * 2
         kind = rng.choice(kinds)
         if kind == "proc":
             return {"op": "proc", "i": rng.randrange(n_procs)}
@@ -247,6 +252,10 @@ def g_e2e_case(rng, maxlen=12):
             v = fresh(rng.choice([1, 2, 2]))
             approx[key] = approx.get(key, []) + v
             return {"op": "append", "key": key, "msgs": v}
+        if kind == "redact":   # an operator blanks the texts of a thread: same shape and size, other contents
+            if key in approx:
+                approx[key] = [_redact(m) for m in approx[key]]
+            return {"op": "redact", "key": key}
         n = rng.choice([0, 0, 1, 2, 3])
         if key in approx:
             approx[key] = approx[key][:n]
@@ -639,6 +648,10 @@ def run_e2e(case):
                 v = store[0].get(r["key"])
                 if v is not None:
                     store[0].set(r["key"], v[:r["n"]])
+            elif op == "redact":
+                v = store[0].get(r["key"])
+                if v is not None:
+                    store[0].set(r["key"], [_redact(m) for m in v])
             else:
                 raise ValueError(op)
             resps.append(c)
@@ -712,7 +725,7 @@ def model_requests(case, obs):
         return [{"m": "C20.fn", "root": case["root"], "cwd": obs["cwd"], "items": items}]
     cfg = case["cfg"]
     miss = set(case.get("missing") or [])
-    store_ops = ("set", "append", "del", "take", "swap")
+    store_ops = ("set", "append", "del", "take", "swap", "redact")
     items = []
     for r in case["reqs"]:
         if "op" not in r:
@@ -881,6 +894,8 @@ def oracle(case, obs):
                 exp.pop(r["key"], None)
             elif op == "take" and r["key"] in exp:
                 exp[r["key"]] = exp[r["key"]][:r["n"]]
+            elif op == "redact" and r["key"] in exp:
+                exp[r["key"]] = [dict(m, content="#" * len(m["content"])) if isinstance(m.get("content"), str) else m for m in exp[r["key"]]]
             continue
         body = r["body"]
         if a["r"] == "other":
@@ -975,7 +990,7 @@ def tags(case, obs):
     last = {}
     for r, a in zip(case["reqs"], obs["resps"]):
         if "op" in r:
-            if r["op"] in ("set", "append", "del", "take") and not a.get("skipped"):
+            if r["op"] in ("set", "append", "del", "take", "redact") and not a.get("skipped"):
                 for k in list(last):
                     if k[1] == r["key"]:
                         last[k] = "changed"
